@@ -33,7 +33,7 @@ pub fn case(g: &G) -> String {
 }
 
 /// grammars rich in shared prefixes
-fn prefixy(rng: &mut Rng) -> G {
+pub fn prefixy(rng: &mut Rng) -> G {
     let n = rng.range(1, 3);
     let m = rng.range(1, 3);
     let names: Vec<String> = (0..n).map(nt_name).collect();
